@@ -257,7 +257,7 @@ def run(rep: Report, tier: str) -> None:
                        "UPPER/CAST/TRY_CAST/|| have standard semantics; period_to_date(year,'D',n) = 1 January + (n-1) days"]
 
 
-def spelling_grid(rep: Report, rule: str, macros: Dict[str, Any], limits: Dict[str, int]) -> None:
+def spelling_grid(rep: Report, rule: str, macros: Dict[str, Any], limits: Dict[str, int], null_clause: bool = False) -> None:
     """Every spelling of the documented input families (compact / hyphenated, any zero padding, either letter case) is pushed through
     the parsed vtl_period_normalize macro and must come out as THE canonical text of the same period: two spellings of one period
     must not survive as two different strings - they are compared as text afterwards (duplicate-key check, ordering of cumulative
@@ -294,5 +294,17 @@ def spelling_grid(rep: Report, rule: str, macros: Dict[str, Any], limits: Dict[s
                                     "macro:vtl_period_normalize",
                                     f"the input spelling {sp!r} of the period {want} is normalised to {got!r}: the stored text differs from the canonical one, so the same period "
                                     f"written in two ways compares unequal and is rendered with the wrong padding"))
+    # a non-null input never becomes NULL: nulls are skipped by the post-load format validation, so a value that is not a period
+    # (an impossible calendar day written as a date) must either fail here or survive as text for that validation to reject
+    for bad in (("2021-02-29", "2020-04-31", "2021-13-01", "2021-00-10", "2020-D1a", "2021-Wx", "2020-M1x", "2020-Qx") if null_clause else ()):
+        nsp += 1
+        try:
+            got = sqlconc.call_macro(macros, "vtl_period_normalize", bad)
+        except (sqlconc.SqlError, sqlexpr.ParseError):
+            continue
+        if got is None:
+            rep.add(Finding(rule, f"{rule}/null-from-value/{bad}", "src/vtlengine/duckdb_transpiler/sql/init.sql", macros["vtl_period_normalize"].line, "macro:vtl_period_normalize",
+                            f"the non-null input {bad!r} (not a period) is normalised to NULL: the post-load format check skips NULLs, so run() stores a null where "
+                            f"validate_dataset() reports an invalid Time_Period (and a non-nullable component is then rejected for the wrong reason)"))
     rep.instance(rule, "spelling-grid", nontrivial=True, sample={"spellings evaluated": nsp})
     rep.floor(f"{rule} spellings", nsp, 150)
